@@ -322,6 +322,26 @@ def run(F, R, tier):
         R.check(copies == exp, "C06.R2", "C06.R2:update_audit_map_entry_sk:field-copy", src,
                 "the audit entry copies each field from the same-named field of the local entry", "copies: %s" % copies)
 
+    # ------------------------------------------------------------------ R6 hand-over slot is per thread
+    R.rule("C06.R6", "the connect4 -> tcp_connect hand-over record (local_map) is keyed by the whole pid_tgid (unique per thread)")
+    n_lm = 0
+    for fname, fn in fns.items():
+        env = var_env(fn)
+        for n in walk(fn):
+            if n.get("kind") == "CallExpr" and strip(n["inner"][0]).get("ref") in ("bpf_map_update_elem", "bpf_map_lookup_elem", "bpf_map_delete_elem") \
+                    and len(n["inner"]) > 2 and "local_map" in expr_str(n["inner"][1]):
+                keyexpr = strip(n["inner"][2])
+                # &var
+                kv = strip(keyexpr["inner"][0]) if keyexpr.get("kind") == "UnaryOperator" and keyexpr.get("opcode") == "&" else keyexpr
+                w = word_of(kv, env)
+                n_lm += 1
+                R.check(w == ("bpf_get_current_pid_tgid", "whole"), "C06.R6", R.key("C06.R6", fname, strip(n["inner"][0]).get("ref").replace("bpf_map_", "")),
+                        "%s:%s" % (src, n.get("line")),
+                        "%s: local_map accessed with the whole 64-bit pid_tgid (one slot per thread)" % fname,
+                        "%s: local_map is keyed by `%s` = %s: threads of one process share the hand-over slot, so interleaved connects of two "
+                        "threads are attributed to each other" % (fname, expr_str(kv), w))
+    R.floor("C06.R6", n_lm, 3, "local_map accesses (update, lookup, delete)")
+
     # ------------------------------------------------------------------ R3 layouts
     lay = E["layouts"]
     td = E["typedefs"]
